@@ -39,12 +39,27 @@ def true_occurrences(hay, needle, start):
     return out
 
 
-def judge_needle(hay, needle, bs, start, limit, utils, pos=0, consumer=0):
+class SegmentedFile(io.BytesIO):
+    """a seekable file object over segmented storage: read(n) returns what is left of the current segment, i.e. fewer than n
+    bytes although more data follows (io.RawIOBase semantics: only an EMPTY result means end of data)"""
+
+    def __init__(self, data, segment):
+        super().__init__(data)
+        self._segment = segment
+
+    def read(self, n=-1):
+        if n is None or n < 0:
+            return super().read()
+        pos = self.tell()
+        return super().read(min(n, (pos // self._segment + 1) * self._segment - pos))
+
+
+def judge_needle(hay, needle, bs, start, limit, utils, pos=0, consumer=0, segment=0):
     """Returns None or (monitor, message).  pos: file position before the call (matters when start is None:
     'search from the current position').  consumer: n > 0 = after every result the caller seeks to the reported
     offset and reads n bytes from the same file object (what find_beacon_config_bytes does with n = 4096)."""
     core.set_buffer_size(bs)
-    fh = io.BytesIO(hay)
+    fh = SegmentedFile(hay, segment) if segment else io.BytesIO(hay)
     fh.seek(pos)
     s = pos if start is None else start
     try:
@@ -85,7 +100,7 @@ def check_case(case, ctx):
         if op == "needle":
             hay, needle = case["hay"], case["needle"]
             ctx.mon("needle.limit" if case["limit"] else "needle.model")
-            r = judge_needle(hay, needle, case["bs"], case["start"], case["limit"], utils, case.get("pos", 0), case.get("consumer", 0))
+            r = judge_needle(hay, needle, case["bs"], case["start"], case["limit"], utils, case.get("pos", 0), case.get("consumer", 0), case.get("segment", 0))
             if r:
                 ctx.violation(r[0], f"hay={core.short(hay, 80)} needle={needle.hex()} bs={case['bs']} start={case['start']} pos={case.get('pos', 0)}: {r[1]}", case)
                 return
@@ -285,8 +300,16 @@ def run_shard(shard, ctx):
             limit = rng.choice([0, 0, 0, rng.randrange(1, hl + 10), 1024])
             check_case({"op": "needle", "hay": hay, "needle": needle, "bs": bs, "start": start, "limit": limit,
                         "pos": rng.randrange(0, hl + 1) if start is None and not limit and rng.random() < 0.6 else 0,
-                        "consumer": rng.choice([0, 0, 1, 64, 4096])}, ctx)
+                        "consumer": rng.choice([0, 0, 1, 64, 4096]), "segment": rng.choice([0, 0, 0, 1, 7, 100, 1000, 5000])}, ctx)
     elif kind == "artifact":
+        for k in range(2):
+            # files beyond 64 KiB with headers in the last bytes before (and the first after) every 64 KiB border
+            n = 65536 * (k + 1) + rng.choice([40, 5000])
+            data = bytearray(n)
+            for p in sorted({65536 * (j + 1) - d for j in range(k + 1) for d in (16, 12, 8, 5, 1, 0, -3)} | {rng.randrange(0, n - 20)}):
+                if 0 <= p <= n - 20:
+                    data[p : p + 20] = struct.pack("<II", p + 16, 4) + b"KEY!" + b"hintHINT"
+            check_case({"op": "artifact", "data": bytes(data), "start": rng.choice([0, 1000, None]), "maxrange": None, "pos": 0, "bs": None, "fileobj": "bytesio"}, ctx)
         for i in range(shard["n"]):
             if ctx.out_of_time():
                 break
